@@ -3,7 +3,7 @@ from props import endpoint
 
 
 def check(pid, tier, replay):
-    names = ["da", "db", "dc", "dd"] if tier == "thorough" else ["a", "b", "c"]
+    names = ["da", "db", "dc", "dd", "de"] if tier == "thorough" else ["a", "b", "c", "e"]
     gens = [("endpoint/SessGen", "endpoint/SessGen_%s.cfg" % n) for n in names]
     endpoint.run(pid, tier, replay, ("C07_",), [("endpoint/SessionWin", "endpoint/SessionWin.cfg")], gens,
                  "after a fixed handshake every sequence up to the depth bound over {send 1 frame, send 3 frames, peer flow with window 0..3 / lagging / unset "
